@@ -92,8 +92,8 @@ class CacheScenario:
     # -- state and verdict ---------------------------------------------------------
     def shared_key(self, ex):
         snap = Snapshot(self.dir)
-        txn = tuple(self.idents.get(o._txn_id, o._txn_id and -1)
-                    for o in self.objects) if self.mode == 'shared' else ()
+        txn = tuple(o._txn_id for o in self.objects) \
+            if self.mode == 'shared' else ()
         return (snap.canon(), tuple(tree(self.dir)), txn)
 
     def ops(self, ex):
